@@ -213,7 +213,7 @@ impl<'a> Ctx<'a> {
 		// read with the debug option (dumps every event into a directory): the game is the same game
 		if crate::util::fnv(&self.built.bytes) % 8 == 0 && self.built.bytes.len() < 1 << 20 {
 			let dir = std::env::temp_dir().join(format!("pv-debug-{}-{:x}", std::process::id(), crate::util::fnv(&self.built.bytes)));
-			let opts = slippi::de::Opts { skip_frames: false, compute_hash: false, debug: Some(slippi::de::Debug { dir: dir.clone() }) };
+			let opts = slippi::de::Opts { skip_frames: false, compute_hash: false, debug: Some(slippi::de::Debug { dir: dir.clone() }), ..Default::default() };
 			let res = guard(|| slippi::read(std::io::Cursor::new(&self.built.bytes[..]), Some(&opts)));
 			let _ = std::fs::remove_dir_all(&dir);
 			match res {
@@ -234,7 +234,7 @@ impl<'a> Ctx<'a> {
 		// (and the stream can only move forward: a full read has no reason to seek anywhere else)
 		r.forward_only = true;
 		// (every other file with the hash requested: the bytes then pass through the hashing wrapper)
-		let fopts = slippi::de::Opts { skip_frames: false, compute_hash: self.built.bytes.len() % 4 < 2, debug: None };
+		let fopts = slippi::de::Opts { skip_frames: false, compute_hash: self.built.bytes.len() % 4 < 2, debug: None, ..Default::default() };
 		match guard(|| slippi::read(&mut r, Some(&fopts))) {
 			Outcome::Ok(g2) => match real::write_slp(&g2) {
 				Outcome::Ok(w) => {
@@ -329,7 +329,7 @@ impl<'a> Ctx<'a> {
 		// the options of the one-shot reader are accepted by every incremental call; what a call consumes,
 		// counts and stores does not depend on them (driven on the fixed-size fragmentation)
 		let opts_v = match (&frag, mode) {
-			(crate::stream::Frag::Fixed(_), "c12") => Some(slippi::de::Opts { skip_frames: true, compute_hash: true, debug: None }),
+			(crate::stream::Frag::Fixed(_), "c12") => Some(slippi::de::Opts { skip_frames: true, compute_hash: true, debug: None, ..Default::default() }),
 			_ => None,
 		};
 		let opts = opts_v.as_ref();
@@ -855,7 +855,7 @@ impl<'a> Ctx<'a> {
 		use std::collections::BTreeMap;
 		let cls = shape_class(self.beh);
 		let _ = std::fs::remove_dir_all(dir);
-		let opts = slippi::de::Opts { skip_frames: false, compute_hash: false, debug: Some(slippi::de::Debug { dir: dir.to_path_buf() }) };
+		let opts = slippi::de::Opts { skip_frames: false, compute_hash: false, debug: Some(slippi::de::Debug { dir: dir.to_path_buf() }), ..Default::default() };
 		let res = guard(|| slippi::read(std::io::Cursor::new(&self.built.bytes[..]), Some(&opts)));
 		if !res.is_ok() {
 			out.push(outcome_viol("debug_read", &cls, &res));
@@ -940,6 +940,21 @@ impl<'a> Ctx<'a> {
 			let quirk = g.quirks.map_or(false, |q| q.double_game_end);
 			if with_hash != hash.is_some() {
 				out.push(viol("slp_hash", &cls, "mismatch", format!("hash requested={} reported={:?}", with_hash, hash)));
+			}
+			// the hash does not depend on the other options: the same read with the debug option set
+			if with_hash && *comp == comps[0] && self.built.bytes.len() < 1 << 20 && crate::util::fnv(&self.built.bytes) % 3 == 0 {
+				let dir = std::env::temp_dir().join(format!("pv-debug-h-{}-{:x}", std::process::id(), crate::util::fnv(&self.built.bytes)));
+				let opts = slippi::de::Opts { skip_frames: false, compute_hash: true, debug: Some(slippi::de::Debug { dir: dir.clone() }), ..Default::default() };
+				let res = guard(|| slippi::read(std::io::Cursor::new(&self.built.bytes[..]), Some(&opts)));
+				let _ = std::fs::remove_dir_all(&dir);
+				match res {
+					Outcome::Ok(gd) => {
+						if gd.hash != hash {
+							out.push(viol("slp_hash", &cls, "mismatch", format!("hash with the debug option set: {:?}, without: {:?}", gd.hash, hash)));
+						}
+					}
+					o => out.push(outcome_viol("slp_hash", &cls, &o)),
+				}
 			}
 			let cc = format!("{},comp:{}", cls, comp.name());
 			// history: an earlier .slpp write on this thread failed part-way (sink full)
